@@ -15,7 +15,7 @@ DECIDES = ('derivative tables are indexed [u-order][v-order] consistently from p
            'with function/order indices of the matching PK/PKL positions and loops over degree - order + 1 functions (A34); derivative control '
            'point tables are written at [u-order][v-order][u-index][v-index] with direction-coherent indices, net strides and knot-vector slices '
            '(PK1, LY1, AX1), and in A3.3 the scalar factor of the difference quotient equals the index distance of the two knots it is divided by (PK2); [SKEL, bounded] for degrees 1..4, orders 0..degree+2, every span: no index error, no None placeholder consumed in any '
-           'of the 6 derivative evaluators and 4 helpers. the [0, 1] parameter rejection is only evaluated for shapes with normalised knot vectors (RG1). every sum of the quotient rule restarts from zero between its consumption and its next accumulation (RQ1.sums-restart, CFG); the list variants of tangent/normal return the single-parameter result per parameter (TN2); every hodograph shape is a copy of the input or built with its normalize_kv, so it is parametrised like the input (HD2).')
+           'of the 6 derivative evaluators and 4 helpers. the [0, 1] parameter rejection is only evaluated for shapes with normalised knot vectors (RG1). every sum of the quotient rule restarts from zero between its consumption and its next accumulation (RQ1.sums-restart, CFG); the list variants of tangent/normal return the single-parameter result per parameter (TN2); every hodograph shape is a copy of the input or built with its normalize_kv, so it is parametrised like the input (HD2). both pluggable span searches return the half-open span that starts at a knot, so derivatives at knots are right-hand derivatives (OT1, order types). [SKEL, abstract object] interpreted on an object created with normalize_kv=False, the named methods never reach utilities.check_params and hand the request on to the evaluator / operation (RG2: spelling-independent form of RG1).')
 NOT_DECIDED = 'the value of any derivative; unit length of normalised vectors (numerical); hodograph control point values; finite-difference agreement.'
 TECHNIQUE = 'axis-tag dataflow, index-sum identities in polynomial normal form, call-contract guards; bounded index-skeleton interpretation for definedness'
 
@@ -39,9 +39,11 @@ def check(m, run):
     rl.ly1_canonical(m, run, funcs)
     ra.ax1_helper_calls(m, run, funcs + [m.func('helpers.basis_function_ders'), m.func('helpers.basis_function_all')])
     hodographs(m, run)
+    from .. import skel_drivers as _sd
+    _sd.c03_order(m, run)     # derivatives at a knot are taken from the right: the span search must return the span that starts there
     from .. import ops_common as oc
     oc.unit_range_rule(m, run, ('derivatives',))
-    run.floor('RG1.unit-range-check-only-when-normalised', 2, 'Curve.derivatives, Surface.derivatives')
+    run.floor('RG2.no-unit-range-test-for-un-normalised-shapes', 2, 'Curve.derivatives, Surface.derivatives')
     # the quotient rules multiply by linalg.binomial_coefficient: closed form k!/(i!(k-i)!) or, for loop forms, no floored factor (shared with C16)
     from . import c16
     c16.check_binomial(m, run)
